@@ -32,7 +32,7 @@ def weighted(pairs):
     return pick()
 
 
-def op_strategy(resets=True, gens=True, burn=False):
+def op_strategy(resets=True, gens=True, burn=False, custom=False):
     prog = st.tuples(st.just("p"), BIG, SIDE, KS)
     near = st.tuples(st.just("n"), st.integers(0, 8), BIG, SIDE, KS)
     flat = st.tuples(st.just("f"), BIG, SIDE, KS)
@@ -41,6 +41,8 @@ def op_strategy(resets=True, gens=True, burn=False):
     deep = st.tuples(st.just("d"), BIG, SIDE, KS)
     redundant = st.tuples(st.just("i"), BIG, SIDE, KS)
     alts = [(8, prog), (7, deep), (8, near), (4, redundant), (3, flat), (3, rep), (1, noop)]
+    if custom:
+        alts.append((4, st.tuples(st.just("q"), st.integers(0, 2), BIG, st.integers(0, 139), SIDE, KS)))
     if burn:
         alts.append((1, st.tuples(st.just("b"), BIG)))
     if resets:
@@ -72,11 +74,11 @@ MODES = st.fixed_dictionaries({
 
 
 def case_strategy(tier, doc_kw=None, weights=(14, 3, 3), min_ops=12, max_ops=None,
-                  modes=None, resets=True, gens=True, burn=False):
+                  modes=None, resets=True, gens=True, burn=False, custom=False):
     max_ops = max_ops or (150 if tier == "thorough" else 60)
     return st.fixed_dictionaries({
         "source": source_strategy(tier, doc_kw, weights),
-        "ops": st.lists(op_strategy(resets, gens, burn), min_size=min_ops, max_size=max_ops),
+        "ops": st.lists(op_strategy(resets, gens, burn, custom), min_size=min_ops, max_size=max_ops),
         "modes": modes if modes is not None else st.just({}),
         "foreign": st.sampled_from([None, None, None, "small", "tiny-small", "medium"]),
     })
